@@ -43,6 +43,12 @@ func main() {
 			os.Exit(2)
 		}
 		os.Exit(engine.Replay(spec, os.Args[2]))
+	case "--aux":
+		f, ok := props.Aux[os.Args[2]]
+		if !ok {
+			os.Exit(2)
+		}
+		os.Exit(f(os.Args[3:]))
 	case "--list":
 		for id := range props.Registry {
 			fmt.Println(id)
